@@ -93,7 +93,12 @@ def run():
                     s = q.get_nowait()
                 except queue.Empty:
                     return
-                apply(s, d)
+                try:
+                    apply(s, d)
+                except AssertionError:
+                    with lock:
+                        res[s['id']] = dict(s, status='stale-site', reports=[], props=[])
+                    continue
                 p = subprocess.run([os.path.join(VERIF, 'bin/mcpcheck'), '-property', 'all', '-repo', d, '-root', VERIF, '-no-evidence'], env=ENV, capture_output=True, text=True)
                 out = p.stdout + p.stderr
                 restore(s, d)
@@ -159,7 +164,12 @@ def suite():
                     r = q.get_nowait()
                 except queue.Empty:
                     return
-                apply(r, d)
+                try:
+                    apply(r, d)
+                except AssertionError:
+                    with lock:
+                        res[r['id']]['suite'] = 'stale-site'
+                    continue
                 pkgs = ['./...']
                 p = subprocess.run(['go', 'test', '-count=1', '-timeout', '300s'] + pkgs, cwd=d, env=wenv, capture_output=True, text=True)
                 restore(r, d)
